@@ -154,6 +154,18 @@ func main() {
 				pool[i] = b
 			}
 		}
+		if hi%6 == 1 {
+			ia := hx.Pick(rnd, []string{"/a/*{x}/b", "/f/*{p}/m", "a.b/a/*{x}/b"})
+			fam := []string{ia, ia + "c", ia + "d", ia + "/*{y}/c/d1", ia + "/*{y}/c/d2", ia + "/*{y}/c/d1/e", ia + "/*{y}/c"}
+			for i, f := range fam {
+				if i < len(pool) {
+					pool[i] = f
+				} else {
+					pool = append(pool, f)
+				}
+			}
+			st.Count("pool:infix-family")
+		}
 		if hostPct > 0 && rnd.Pct(70) {
 			// family of hostname patterns whose hosts extend each other label by label around a
 			// parameter label: the host/path boundary of one falls inside the host edge of another
@@ -586,6 +598,14 @@ func runC07(out, tier string, shards int, rnd *hx.Rand) {
 				}
 			}
 			methods := []string{"GET", "POST", "FOO", "BAR"}[:rnd.Range(1, 4)]
+			if ci%4 == 2 {
+				// infix catch-all families: one or two infix catch-alls followed by static text inside ONE node
+				// key, with siblings below (the precomputed inode chain of such a node must follow every
+				// later insert / delete / update that walks through or rebuilds the node)
+				ia := hx.Pick(rnd, []string{"/a/*{x}/b", "/f/*{p}/m", "a.b/a/*{x}/b"})
+				pool = []string{ia, ia + "c", ia + "d", ia + "/*{y}/c/d1", ia + "/*{y}/c/d2", ia + "/*{y}/c/d1/e", ia + "/*{y}/c", ia + "/k/{z}"}
+				st.Count("pool:infix-family")
+			}
 			if ci%3 == 1 {
 				// sibling pool: many children under one node, inserted a few at a time, so that children
 				// arrays with spare capacity exist when a later (possibly aborted) transaction inserts a
@@ -600,6 +620,19 @@ func runC07(out, tier string, shards int, rnd *hx.Rand) {
 			}
 			before := a.Len()
 			tr := newTracker()
+			if ci%4 == 2 {
+				// scripted: the infix route with two children below it, then its deletion (the node stays as
+				// an intermediary node with > 1 children; its precomputed inode must lose the route too)
+				m := methods[0]
+				for _, p := range []string{pool[0], pool[1], pool[2]} {
+					_, err := a.Handle(m, p, rt.Noop)
+					tr.add(m, p, err)
+				}
+				if rnd.Pct(70) {
+					_, err := a.Delete(m, pool[0])
+					tr.del(m, pool[0], err)
+				}
+			}
 			if ci%3 == 1 {
 				// scripted prelude: k siblings committed one by one, then an ABORTED transaction inserting
 				// siblings that sort before them (a copy-on-write slip corrupts the live tree here)
@@ -668,7 +701,11 @@ func runC07(out, tier string, shards int, rnd *hx.Rand) {
 			equal := true
 			var diff string
 			probes := 0
-			for _, e := range set {
+			probeSrc := append([]entry{}, set...)
+			for _, p := range pool {
+				probeSrc = append(probeSrc, entry{methods[0], p})
+			}
+			for _, e := range probeSrc {
 				for k := 0; k < 4; k++ {
 					h, p := rt.SplitPattern(rt.Instantiate(rnd, e.pat, false))
 					if k > 0 {
